@@ -17,6 +17,25 @@ pub(crate) struct Probe<T> {
     reached_indirect_probe_stage: bool,
 }
 
+#[cfg(feature = "verif-hooks")]
+impl<T: Clone> Probe<T> {
+    pub(crate) fn verif_direct(&self) -> Option<Member<T>> {
+        self.direct.clone()
+    }
+
+    pub(crate) fn verif_indirect(&self) -> Vec<T> {
+        self.indirect.clone()
+    }
+
+    pub(crate) fn verif_flags(&self) -> (bool, usize, bool) {
+        (
+            self.direct_ack_ok,
+            self.indirect_ack_count,
+            self.reached_indirect_probe_stage,
+        )
+    }
+}
+
 impl<T: Clone + PartialEq> Probe<T> {
     pub(crate) fn new(indirect: Vec<T>) -> Self {
         Self {
